@@ -3,7 +3,7 @@
 From Coq Require Import String List NArith ZArith Bool.
 From J5V.lib Require Import Text Outcome.
 From J5V.model Require Import BclLexer BclParser BclErrpos.
-From J5V.proofs Require Import BclPosProofs BclLexerProofs BclParserProofs BclErrposProofs BclGenProofs.
+From J5V.proofs Require Import BclPosProofs BclLexerProofs BclParserProofs BclErrposProofs BclGenProofs BclBytesProofs.
 Import ListNotations.
 
 (* [valid_pos data p]: p is the (line, column) of a rune of the input or of its end.
@@ -56,6 +56,14 @@ Print Assumptions C11_positions_valid.
 Theorem C11_valid_is_inside : forall data p, valid_pos data p -> inside data p.
 Proof. exact valid_inside. Qed.
 Print Assumptions C11_valid_is_inside.
+
+(* ... also when the input is taken as the Go string it is: lines are strings.Split(input, "\n")
+   on bytes, the column is at most the number of runes of that line ([]rune conversion of the
+   whole input and of a single line agree, invalid UTF-8 included) *)
+Theorem C11_valid_is_inside_bytes : forall input p,
+  valid_pos (utf8_decode input) p -> inside_bytes input p.
+Proof. exact valid_inside_bytes. Qed.
+Print Assumptions C11_valid_is_inside_bytes.
 
 (* collect-all mode reports the fail-fast diagnostic first (and both modes accept the same inputs) *)
 Theorem C11_collect_first_is_failfast : forall data,
